@@ -944,9 +944,23 @@ func (f *fn) call(x *ast.CallExpr) ex {
 			}
 			// a function that is not translated but stands for a parameter of the generated code
 			if ec, ok := externFuncs[f.p.dir+"."+name]; ok {
-				codes, pure, _ := f.args(x.Args)
+				// only the arguments the parameter takes are translated (an argument that merely feeds error texts — a path —
+				// need not be in the subset)
+				codes := make([]string, len(x.Args))
+				pure := true
+				for i, a := range x.Args {
+					if !strings.Contains(ec.tmpl, fmt.Sprintf("$%d", i+1)) {
+						continue
+					}
+					r := f.expr(a)
+					codes[i] = r.val()
+					pure = pure && r.pure
+				}
 				for _, u := range ec.uses {
 					f.uses[u] = true
+				}
+				if strings.HasPrefix(ec.tmpl, "(← ") {
+					pure = false
 				}
 				return ex{subst(ec.tmpl, "", codes), pure, ec.t}
 			}
